@@ -24,7 +24,7 @@ FINDERS = [
     (r'Handles', 'find_handles_setops'),
     (r'strip_annotation_ids|strip_data_ids|IdMap<HandleType>::(new|default|with_resolve_temp_ids|set_resolve_temp_ids)', 'find_strip_ids'),
     (r'::reindex|::gaps', 'find_reindex_ids'),
-    (r'StoreFor<T:Storable>.*::(resolve_id|get__|has__|get_mut__)', 'find_id_lookups'),
+    (r'StoreFor<T:Storable>.*::(resolve_id|get__|has__|get_mut__|next_handle|insert/full_refused)', 'find_id_lookups'),
     (r'SegmentationIter|::segmentation', 'find_segmentation'),
     (r'utf8byte|create_milestones', 'find_utf8'),
     (r'TextSelectionIter', 'find_index_walk'),
